@@ -12,7 +12,7 @@ SeqSet(s) == {s[x] : x \in 1..Len(s)}
 VarEq(o, r) == o.kind = r.kind /\ (r.kind # "unset" => o.ex = r.ex /\ o.val = r.val)
 \* an observation (parsed probe output) equals a state of the spec
 StateEq(o, r) ==
-    /\ \A n \in {"v1", "v2"} : VarEq(o.vars[n], r.vars[n])
+    /\ \A n \in DOMAIN r.vars : n \in DOMAIN o.vars /\ VarEq(o.vars[n], r.vars[n])
     /\ o.funcs["f1"] = r.funcs["f1"] /\ o.aliases["a1"] = r.aliases["a1"]
     /\ SeqSet(o.opts) = SeqSet(r.opts) /\ SeqSet(o.shopts) = SeqSet(r.shopts)
     /\ o.cwd = r.cwd /\ o.stack = r.stack
